@@ -136,7 +136,7 @@ func startServer() (*pipeListener, error) {
 type e2eCase struct {
 	Msg      msgspec.Spec
 	Key      int      // index into e2eKeys
-	Variant  string   // good, edge, late, early, tampered, wrongsecret, unknownkey, casekey, none, libsigned
+	Variant  string   // good, edge, late, early, tampered, wrongsecret, unknownkey, casekey, ancestorkey, rootkey, none, libsigned
 	Fudge    uint16   // >= 300
 	FlipBit  int      // tampered: bit position in the message body (reduced modulo its length)
 	Follow   []string // variants of further requests sent on the same connection (good, edge, late, early, wrongsecret)
@@ -261,6 +261,13 @@ func oneRequest(sess *session, c e2eCase, variant string, step int) error {
 	case "casekey":
 		t.KeyName = invertCase(keyL)
 		canonicalName = false
+	case "ancestorkey", "rootkey":
+		// the holder of a key presents itself under the name of a parent domain of that key (or the
+		// root), for which nothing is registered: the named key does not exist
+		t.KeyName = keyL[1:]
+		if c.Variant == "rootkey" {
+			t.KeyName = ref.Labels{}
+		}
 	}
 	var req, reqMAC []byte
 	switch c.Variant {
@@ -432,7 +439,7 @@ func genE2E(t *rapid.T) e2eCase {
 		c.Msg.Question = []msgspec.Q{{Name: 0, Type: 1, Class: 1}}
 	}
 	c.Key = rapid.IntRange(0, len(e2eKeys)-1).Draw(t, "key")
-	c.Variant = rapid.SampledFrom([]string{"good", "good", "edge", "late", "early", "tampered", "tampered", "wrongsecret", "unknownkey", "unknownkey-emptysecret", "unknownkey-namesecret", "casekey", "none", "libsigned", "multi", "multi"}).Draw(t, "variant")
+	c.Variant = rapid.SampledFrom([]string{"good", "good", "edge", "late", "early", "tampered", "tampered", "wrongsecret", "unknownkey", "unknownkey-emptysecret", "unknownkey-namesecret", "casekey", "none", "libsigned", "multi", "multi", "ancestorkey", "rootkey"}).Draw(t, "variant")
 	c.Fudge = rapid.OneOf(rapid.Just(uint16(300)), rapid.Uint16Range(300, 65535)).Draw(t, "fudge")
 	c.FlipBit = rapid.IntRange(0, 1<<20).Draw(t, "flipbit")
 	c.UpperAlg = rapid.IntRange(0, 3).Draw(t, "upperalg") == 0
